@@ -107,7 +107,47 @@ fn exercise(z: &Zoo) -> Result<u64, String> {
     steps += t2.0.n;
     steps += adapters(z, &bb)?;
     steps += rejections(z);
+    steps += null_font_text(z);
     Ok(steps)
+}
+
+/// the null font (`MonoTextStyleBuilder::new()` without `.font()`: zero-sized glyphs) with every baseline and
+/// alignment: bounding_box, draw, measure_string, with and without decorations, for the case's string / position
+fn null_font_text(z: &Zoo) -> u64 {
+    use embedded_graphics::mono_font::MonoTextStyleBuilder;
+    use embedded_graphics::text::renderer::TextRenderer;
+    use embedded_graphics::text::{Alignment, Baseline, Text, TextStyleBuilder};
+    let mut n = 0u64;
+    if let Geo::Text { pos, lh, deco, s, .. } = &z.geo {
+        let mut b = MonoTextStyleBuilder::<Rgb565>::new();
+        if deco & 1 != 0 {
+            b = b.text_color(TEXT);
+        }
+        if deco & 2 != 0 {
+            b = b.background_color(BG);
+        }
+        if deco & 4 != 0 {
+            b = b.underline_with_color(UL);
+        }
+        if deco & 8 != 0 {
+            b = b.strikethrough_with_color(ST);
+        }
+        let cs = b.build();
+        for baseline in [Baseline::Top, Baseline::Bottom, Baseline::Middle, Baseline::Alphabetic] {
+            for alignment in [Alignment::Left, Alignment::Center, Alignment::Right] {
+                let ts = TextStyleBuilder::new().alignment(alignment).baseline(baseline).line_height(*lh).build();
+                for text in [STRINGS[*s], "", "\n", "a\r\nb"] {
+                    let txt = Text::with_text_style(text, *pos, cs, ts);
+                    let bb = txt.bounding_box();
+                    let mut t = NullTarget { bb: Rectangle::new(Point::new(-2048, -2048), Size::new(4096, 4096)), n: 0, sum: 0 };
+                    let next = txt.draw(&mut t).unwrap();
+                    let m = cs.measure_string(text, *pos, baseline);
+                    n += t.n + bb.size.width as u64 + (next.x ^ m.next_position.x) as u64 % 2;
+                }
+            }
+        }
+    }
+    n
 }
 
 /// adapter stacks: the drawable and the three native fill calls through clipped / cropped / translated /
@@ -132,6 +172,13 @@ fn adapters(z: &Zoo, bb: &Rectangle) -> Result<u64, String> {
         z.draw(&mut t.cropped(area)).unwrap();
         z.draw(&mut t.translated(area.top_left)).unwrap();
         z.draw(&mut t.cropped(area).clipped(&areas[(k + 2) % areas.len()]).translated(Point::new(-3, 2))).unwrap();
+        {
+            // a colour-converting view on a target of another colour type, inside a clipped / translated stack
+            let mut t8 = NullTarget888(0);
+            z.draw(&mut t8.clipped(area).color_converted()).unwrap();
+            z.draw(&mut t8.translated(Point::new(7, -7)).cropped(area).color_converted()).unwrap();
+            t.n += t8.0;
+        }
         // the native calls themselves, with a fill area that is not the view's area
         let other = &areas[(k + 1) % areas.len()];
         let colors = core::iter::repeat(Rgb565::new(1, 2, 3));
@@ -381,6 +428,36 @@ impl DrawTarget for NullBin {
         for _ in pixels.into_iter().take(100_000) {
             self.0 += 1;
         }
+        Ok(())
+    }
+}
+
+/// Rgb888 target: the far end of a `color_converted()` stack
+struct NullTarget888(u64);
+impl Dimensions for NullTarget888 {
+    fn bounding_box(&self) -> Rectangle {
+        Rectangle::new(Point::new(-64, -64), Size::new(384, 304))
+    }
+}
+impl DrawTarget for NullTarget888 {
+    type Color = embedded_graphics::pixelcolor::Rgb888;
+    type Error = core::convert::Infallible;
+    fn draw_iter<I: IntoIterator<Item = Pixel<Self::Color>>>(&mut self, pixels: I) -> Result<(), Self::Error> {
+        for _ in pixels {
+            self.0 += 1;
+            if self.0 > 12 * budget() + 1_000_000 {
+                panic!("step budget exceeded");
+            }
+        }
+        Ok(())
+    }
+    fn fill_contiguous<I: IntoIterator<Item = Self::Color>>(&mut self, area: &Rectangle, colors: I) -> Result<(), Self::Error> {
+        let n = area.size.width as u64 * area.size.height as u64;
+        self.0 += colors.into_iter().take(n as usize).count() as u64;
+        Ok(())
+    }
+    fn fill_solid(&mut self, area: &Rectangle, _c: Self::Color) -> Result<(), Self::Error> {
+        self.0 += area.size.width as u64 * area.size.height as u64;
         Ok(())
     }
 }
